@@ -512,3 +512,46 @@ def r6(cx, rec):
         rec.site(f, bb, 'rate source: %s' % sel)
         rec.need(sel.get('seeding') == 'download' and sel.get('leeching') == 'upload', 'rate-source', f, bb,
                  'rates used for ranking are %s (expected seeding: download rate, leeching: upload rate)' % sel)
+
+
+@TABLE.rule('7', 'K7', 'electing a new optimistic peer retires the previous one whatever its state: within the rotation loop, whether '
+            'optimistic_unchoke is reset does not depend on the peer\'s own flags (a flag left on a peer that later gets a '
+            'regular slot hides it from the between-rotations counter)', floor=1)
+def r7(cx, rec):
+    F = cx.F
+    R = rotation_fn(F)
+    flags = {AM(F), INT(F), OPT(F)}
+    n = 0
+    for nb, start in loops(R):
+        paths = [p for p in mirq.enumerate_paths(R, start, [nb]) if p[-1] == nb]
+        facts = [x for x in (mirq.path_facts(R, p) for p in paths) if x is not None]
+        facts = [x for x in facts if not (set(x['blocks']) & set(C.err_exit_blocks(R)))]
+
+        def resets(x):
+            return [bb for p, v, bb in x['stores'] if flag_field(p) == OPT(F) and const_of(v) is not None and not const_of(v)[0]]
+        with_reset = [x for x in facts if resets(x)]
+        if not with_reset:
+            continue
+        n += 1
+        rec.site(R, resets(with_reset[0])[0], 'loop at bb%d: %d of %d iteration paths reset the optimistic flag' % (nb, len(with_reset), len(facts)))
+
+        def other(x):
+            return {k: v for k, v in x['atoms'].items() if flag_field(k) not in flags}
+        for x in facts:
+            if resets(x):
+                continue
+            if any(flag_field(k) == OPT(F) and v is False for k, v in x['atoms'].items()):
+                continue   # the flag is known to be clear already
+            ox = other(x)
+            for y in with_reset:
+                oy = other(y)
+                if all(ox[k] == oy[k] for k in ox if k in oy):
+                    why = {k: v for k, v in x['atoms'].items() if flag_field(k) in flags}
+                    rec.violation('optimistic-reset-conditional', R, x['blocks'][-1],
+                                  'an iteration with %s keeps optimistic_unchoke although a new optimistic peer is elected under the same '
+                                  'conditions: two peers can carry the flag, and the bitfield-time counter then under-counts the unchoked peers' % why)
+                    break
+            else:
+                continue
+            break
+    rec.need(n >= 1, 'no-optimistic-reset', R, None, 'the rotation never clears optimistic_unchoke')
